@@ -26,6 +26,18 @@ pub struct Scn {
     pub b_starts: Vec<u64>,
     pub inner_err: Vec<bool>,
     pub knobs: SchedKnobs,
+    /// names of the two equally seeded layers: 0 both "chaos", 1 "alpha" / "beta", 2 unnamed / "beta"
+    /// (a name is a label for events, not an input of the decisions)
+    #[serde(default)]
+    pub names: u8,
+    /// the error function of the sequential service panics at its m-th invocation (a user
+    /// callback that fails once); the caller contains the panic and goes on with the next request
+    #[serde(default)]
+    pub a_panic_at: Option<u32>,
+}
+
+thread_local! {
+    static A_ERRS: std::cell::Cell<u32> = const { std::cell::Cell::new(0) };
 }
 
 pub fn gen(rng: &mut Rng) -> Scn {
@@ -46,11 +58,15 @@ pub fn gen(rng: &mut Rng) -> Scn {
         b_starts: (0..n).map(|_| *rng.pick(&[0u64, 0, 0, 1, 2, 5, 10, 20])).collect(),
         inner_err: (0..n).map(|_| rng.chance(1, 8)).collect(),
         knobs: SchedKnobs::gen(rng, false, 30),
+        names: *rng.pick(&[0u8, 0, 1, 2]),
+        a_panic_at: if rng.chance(1, 5) { Some(rng.range(1, 4) as u32) } else { None },
     }
 }
 
 pub fn valid(s: &Scn) -> bool {
-    s.error_tenths <= 10
+    s.names <= 2
+        && s.a_panic_at.map(|m| m >= 1 && m <= 50).unwrap_or(true)
+        && s.error_tenths <= 10
         && s.latency_tenths <= 10
         && s.min_ms <= 5000
         && s.max_ms <= 5000
@@ -66,6 +82,7 @@ const INJECTED_KIND: u8 = 77;
 
 pub fn run(s: &Scn, ctx: &mut RunCtx) -> RunOutput {
     world::reset();
+    A_ERRS.with(|c| c.set(0));
     let cfg = s.knobs.cfg(ctx, 60_000 + s.n as u64 * s.min_ms.max(s.max_ms), 0);
     let scn = s.clone();
     let n = s.n as usize;
@@ -80,9 +97,28 @@ pub fn run(s: &Scn, ctx: &mut RunCtx) -> RunOutput {
         macro_rules! mk_layer {
             ($which:expr) => {{
                 let which: i64 = $which;
-                ChaosLayer::builder()
-                    .name("chaos")
-                    .error_fn(|r: &Req| SimErr { req: r.id, serial: 0, kind: INJECTED_KIND, svc: 9 })
+                let panic_at = if which == 0 { scn.a_panic_at } else { None };
+                let mut b0 = ChaosLayer::builder();
+                match (scn.names, which) {
+                    (0, _) => b0 = b0.name("chaos"),
+                    (1, 0) => b0 = b0.name("alpha"),
+                    (2, 0) => {}
+                    _ => b0 = b0.name("beta"),
+                }
+                b0.error_fn(move |r: &Req| {
+                    if let Some(m) = panic_at {
+                        let k = A_ERRS.with(|c| {
+                            c.set(c.get() + 1);
+                            c.get()
+                        });
+                        if k == m {
+                            world::fault("error_fn_panic");
+                            world::note("a_panicked", r.id as i64, 0);
+                            std::panic::panic_any(crate::inner::SimPanic);
+                        }
+                    }
+                    SimErr { req: r.id, serial: 0, kind: INJECTED_KIND, svc: 9 }
+                })
                     .error_rate(scn.error_tenths as f64 / 10.0)
                     .latency_rate(scn.latency_tenths as f64 / 10.0)
                     .min_latency(Duration::from_millis(scn.min_ms))
@@ -110,9 +146,18 @@ pub fn run(s: &Scn, ctx: &mut RunCtx) -> RunOutput {
                     let mut a = a;
                     for i in 0..n {
                         world::note("a_req", i as i64, 0);
-                        let r = match a.ready().await {
-                            Ok(sv) => sv.call(Req { id: i as u32, key: 0 }).await,
-                            Err(e) => Err(e),
+                        let r = futures::FutureExt::catch_unwind(std::panic::AssertUnwindSafe(async {
+                            match a.ready().await {
+                                Ok(sv) => sv.call(Req { id: i as u32, key: 0 }).await,
+                                Err(e) => Err(e),
+                            }
+                        }))
+                        .await;
+                        let Ok(r) = r else {
+                            // the user's error function panicked: this request is lost, the
+                            // service must go on as if it had answered
+                            world::note("a_done", i as i64, i64::MIN);
+                            continue;
                         };
                         world::note("a_done", i as i64, match &r { Ok(x) => x.serial as i64, Err(e) => -(e.kind as i64) - 1 });
                     }
@@ -153,6 +198,11 @@ pub fn run(s: &Scn, ctx: &mut RunCtx) -> RunOutput {
                 "chaos_err" => 0,
                 "chaos_lat" => 1,
                 "chaos_pass" => 2,
+                // the decision was "error"; the event is emitted after the error function
+                "a_panicked" => {
+                    dec[0].push((0, 0, r.task, r.seq, r.t_us));
+                    continue;
+                }
                 _ => continue,
             };
             dec[*a as usize].push((k, *b, r.task, r.seq, r.t_us));
